@@ -36,6 +36,11 @@ def run(R, ctx):
     current_spared(R, ctx)
     shutdown_rules(R, ctx)
     family_predicate_proxy(R, ctx, 'R07.7', 'the listing cleanup counts over recognises exactly the family (shared with R14.2)')
+    # cleanup (compression) of the file just rotated out must see its complete content: the old writer is replaced - and thereby
+    # flushed and closed - before cleanup runs; decided by the rotation table (shared with R01.4)
+    R.rule('R07.8', 'the writer is switched to the new file before cleanup runs (shared with R01.4)')
+    import c01 as _c01
+    _c01.swap_rules(Relabel(R, {'R01.4': 'R07.8'}), ctx)
 
 def ord_rel(row, a, b):
     """relation of a to b recorded in the row for the ordering atom of names a, b (None if not examined)"""
